@@ -135,6 +135,7 @@ MANIFEST = dict(
          "and a value-consistency check that reads only the fixed value) with symmetric conflict relation, every permutation of any "
          "list of ops gives the same outcome; the side conditions (writes_guarded, conflict_symmetric) are `decide`d on "
          "D42/Gen/Guards.lean, which is extracted from d42/declaration/types/*.py on every run — the F2 defect made exactly this "
-         "`decide` fail; search: exhaustive permutations of all sets of <=3 distinct refinements over a boundary universe on the real code.",
+         "`decide` fail; search: exhaustive permutations of all sets of <=3 distinct refinements over a boundary universe on the real code."
+         " Source pins: the normalised text of every anchor file is compared with the text the model was last validated against; a changed file is a broken obligation (no-failing-input-found unless the search finds an input).",
     note="Trusted: Lean kernel + standard axioms, the ast extractor and its idioms. The value-consistency part of each refinement "
          "is order-independent because it only reads the fixed value (stated in Props/C11.lean).")
